@@ -39,6 +39,50 @@ def run(ctx):
                 r.ok(rule, 'legacy_password_decrypt:Ok', 'Ok(password) only when the embedded nonce equals server_nonce and the length prefix matched', loc=b.loc)
             else:
                 r.fail(rule, 'legacy_password_decrypt:Ok', 'password accepted without %s' % ('the nonce equality' if not nonce else 'the length-prefix check'), loc=b.loc)
+    # ---------------- (2a) the decrypt-side layout admits every plaintext the encrypt side produces (empty password included)
+    rule = 'decrypt-layout'
+    b = db.body('crypto::user_identity::legacy_password_decrypt')
+    if b is not None:
+        F = ctx.facts(b)
+        nl = 0
+        # the filter predicate on nonce_begin: true for 4 (empty password: the nonce starts right after the length prefix), false for 3
+        preds = [cb for cb in db.find_bodies(r'^crypto::user_identity::legacy_password_decrypt::\{closure#\d+\}$') if cb.locals[0] == 'bool']
+        if len(preds) != 1:
+            r.lost(rule, 'nonce_begin-guard', 'expected one bool closure (the filter on nonce_begin), found %d' % len(preds))
+        else:
+            cb = preds[0]; Fc = ctx.facts(cb)
+            ds = [d for d in cb.defs().get(0, []) if d[0] == 'stmt']
+            sym = Fc.sym_rvalue(ds[0][3], 0, ds[0][1]) if len(ds) == 1 else None
+            ok = False; why = 'not a single comparison'
+            if sym is not None and sym[0] == 'bin' and sym[1] in ('Ge', 'Gt', 'Le', 'Lt', 'Ne', 'Eq'):
+                OPS = {'Ge': lambda a, c: a >= c, 'Gt': lambda a, c: a > c, 'Le': lambda a, c: a <= c, 'Lt': lambda a, c: a < c, 'Ne': lambda a, c: a != c, 'Eq': lambda a, c: a == c}
+                def val(x, arg):
+                    if x[0] == 'place' and x[1] == 2:
+                        return arg
+                    c = Fc.const_int(x)
+                    return c
+                at4 = OPS[sym[1]](val(sym[2], 4), val(sym[3], 4)) if None not in (val(sym[2], 4), val(sym[3], 4)) else None
+                at3 = OPS[sym[1]](val(sym[2], 3), val(sym[3], 3)) if None not in (val(sym[2], 3), val(sym[3], 3)) else None
+                ok = at4 is True and at3 is False
+                why = 'predicate(4) = %s, predicate(3) = %s' % (at4, at3)
+            nl += 1
+            if ok:
+                r.ok(rule, 'nonce_begin-guard', 'nonce_begin is accepted from 4 (empty password) and refused below the length prefix', loc=cb.loc)
+            else:
+                r.fail(rule, 'nonce_begin-guard', 'the guard on where the nonce begins does not admit exactly nonce_begin >= 4 (%s): an empty password '
+                       'no longer decrypts, or a plaintext shorter than its prefix is sliced' % why, loc=cb.loc)
+        # slices: nonce = [nonce_begin .. actual_size], password = [4 .. nonce_begin], nonce_begin = actual_size - nonce.len()
+        gets = [c for c in b.calls() if re.search(r'slice.*::get$', c.callee)]
+        rngs = [fmt_sym(b, F.sym_operand(c.args[1])) for c in gets]
+        has_nonce = any(re.match(r'^Range::Range\{.*checked_sub\(.*private_decrypt.*len\(\(\*server_nonce.*private_decrypt', x) for x in rngs)
+        has_pw = any(re.match(r'^Range::Range\{4, .*checked_sub\(.*private_decrypt.*len\(\(\*server_nonce', x) for x in rngs)
+        nl += 2
+        if has_nonce and has_pw:
+            r.ok(rule, 'slices', 'nonce = plaintext[size - nonce.len() .. size], password = plaintext[4 .. size - nonce.len()]', loc=b.loc)
+        else:
+            r.fail(rule, 'slices', 'the password / nonce slices of the decrypted plaintext are not [4 .. size - nonce.len()] and [size - nonce.len() .. size]: %s' % [x[:60] for x in rngs], loc=b.loc)
+        r.count('decrypt_layout_sites', nl)
+        r.floor(rule, 'decrypt_layout_sites', nl, 3)
     # ---------------- (2b) the cipher-text buffer is sized from the very buffer that gets encrypted
     rule = 'buffer-size-agreement'
     eb = db.body('crypto::user_identity::legacy_password_encrypt')
